@@ -440,6 +440,24 @@ func (w *world) splitOuts(coins, hours uint64) []coin.TransactionOutput {
 		restC -= c
 		restH -= h
 	}
+	// unusual but valid destinations: the null address (nobody can spend it; the
+	// null-address rule is only a user constraint, blocks may carry such outputs),
+	// and the same address for every output
+	if w.r.Chance(14) {
+		j := 0
+		for i := range outs { // the smallest amount, so that little becomes unspendable
+			if outs[i].Coins < outs[j].Coins {
+				j = i
+			}
+		}
+		if len(outs) > 1 || outs[j].Coins <= 1000 {
+			outs[j].Address = cipher.Address{}
+		}
+	} else if w.r.Chance(15) {
+		for i := range outs {
+			outs[i].Address = outs[0].Address
+		}
+	}
 	// pairwise distinct (a transaction with two identical outputs is malformed)
 	seen := map[coin.TransactionOutput]bool{}
 	for i := range outs {
@@ -462,6 +480,14 @@ func (w *world) addrIndex(a cipher.Address) int {
 
 // validTxn spends 1..3 of the given unspent outputs (removing them from *avail).
 func (w *world) validTxn(avail *[]coin.UxOut, headTime uint64) (coin.Transaction, []coin.UxOut, bool) {
+	// outputs paid to the null address cannot be spent by anybody
+	spendable := (*avail)[:0:0]
+	for _, ux := range *avail {
+		if _, ok := w.keyOf[ux.Body.Address]; ok {
+			spendable = append(spendable, ux)
+		}
+	}
+	*avail = spendable
 	if len(*avail) == 0 {
 		return coin.Transaction{}, nil, false
 	}
@@ -1095,6 +1121,14 @@ func run(args []string) error {
 					h.accepted = append(h.accepted, *stored)
 					// the body as the node stored it (an arbitrating node filters and re-orders it)
 					for _, t := range stored.Body.Transactions {
+						for _, out := range t.Out {
+							if out.Address.Null() {
+								hist.Add("accepted_output:null_address")
+							}
+							if out.Coins == 1 {
+								hist.Add("accepted_output:one_droplet")
+							}
+						}
 						storedNames = append(storedNames, p.def("t", "txn", w.txnTerm(t, stored.Head, head.Head.BkSeq)))
 					}
 				}
